@@ -342,6 +342,24 @@ def validate(ctx, case, status, out):
                 sig = "auto:limit-exceeded"
             ctx.fail(sig, c, f"largest block {block} B exceeds the limit {lim} B although the fixed axes alone fit ({fixed} B)")
             return sig
+        if fixed > lim and block > fixed and all(n > 0 for n in shape):
+            # the limit is below what the fixed axes force (e.g. 0 B, 1 B, '0B', less than one element): the exemption
+            # covers the fixed axes only — the smallest reachable block (auto axes cut to one element) is `fixed`
+            # bytes, so anything larger means the limit was not honoured although smaller blocks were possible
+            c = dict(case)
+            c.update(got=repr(out), block_bytes=block, limit_bytes=lim, fixed_bytes=fixed, tolerance=tol)
+            prev_zero = prev is not None and any(
+                is_auto(a) and isinstance(p, (tuple, list)) and n > 0 and 0 in p for a, p, n in zip(axes, prev, shape)
+            )
+            if prev is not None and prev_zero:
+                sig = "auto:limit-exceeded:prev-zero-chunk"
+            elif prev is not None:
+                sig = "auto:not-minimal-under-tiny-limit:previous_chunks"
+            else:
+                sig = "auto:not-minimal-under-tiny-limit"
+            ctx.fail(sig, c, f"limit {lim} B is below the {fixed} B the fixed axes force, yet the largest block is {block} B "
+                             f"(one-element auto blocks give {fixed} B)")
+            return sig
         return "auto-fits" if fixed <= lim else "auto-exempt"
     return "ok"
 
@@ -534,6 +552,238 @@ def kind_of(a):
     return type(a).__name__
 
 
+# ------------------------------------------------- extreme / falsy / boundary limits and their spellings
+
+LIMIT_DTYPES = ("int8", "int16", "S3", "int32", "S5", "S7", "float64", "V10", "S12", "complex128")  # itemsize 1..16
+NP_INTS = ("int64", "int32", "uint8", "uint16", "uint64", "intp")
+
+
+def spellings_of(V):
+    """Every way of writing the byte limit V (an int >= 0) that the documentation accepts. Each entry is JSON-able:
+    ["int"] / ["np", typename] / ["float"] / ["npfloat"] / ["str", text]."""
+    from dask.utils import parse_bytes as pb
+
+    out = [["int"], ["float"], ["npfloat"]]
+    for t in NP_INTS:
+        if V <= np.iinfo(t).max:
+            out.append(["np", t])
+    texts = [f"{V}B", f"{V} B", f"{V}b", f"{V}.0B", f"{V} b", f"0{V}B"]
+    if V % 1024 == 0:
+        texts += [f"{V // 1024}KiB", f"{V // 1024}kib", f"{V // 1024} kiB", f"{V // 1024}KIB"]
+    if V % 1000 == 0:
+        texts += [f"{V // 1000}kB", f"{V // 1000}KB", f"{V // 1000} kb", f"{V // 1000}e3B", f"{V // 1000}E3 b"]
+    if V % 512 == 0 and V % 1024 != 0:
+        texts += [f"{V / 1024}kiB", f"{V / 1024} KiB"]
+    if V % 500 == 0 and V % 1000 != 0:
+        texts += [f"{V / 1000}kB"]
+    if V % 2**20 == 0:
+        texts += [f"{V // 2**20}MiB", f"{V // 2**20} mib"]
+    if V == 0:
+        texts += ["0kB", "0 MiB", "0.0 kB", "0e3B"]
+    for t in texts:
+        try:
+            if pb(t) == V:  # the spelling really denotes V (dask.utils.parse_bytes is not part of dask_array)
+                out.append(["str", t])
+        except Exception:
+            pass
+    return out
+
+
+def spelled(sp, V):
+    if sp[0] == "int":
+        return int(V)
+    if sp[0] == "float":
+        return float(V)
+    if sp[0] == "npfloat":
+        return np.float64(V)
+    if sp[0] == "np":
+        return getattr(np, sp[1])(V)
+    return sp[1]
+
+
+def limits_values(rng, shape, dtype, prev, fixed_elems):
+    b = np.dtype(dtype).itemsize
+    nbytes = b * math.prod(shape)
+    row = b * math.prod(shape[1:]) if len(shape) > 1 else b
+    vals = [0, 0, 1, b - 1, b, b + 1, 2 * b, row - 1, row, row + 1, b * fixed_elems - 1, b * fixed_elems, b * fixed_elems + 1,
+            2 * b * fixed_elems, nbytes - 1, nbytes, nbytes + 1, 3 * nbytes, 2**31, 2**40 + 1, 2**62,
+            1000, 1024, 512, 500, 2000, 2048, 2**20, rng.randint(0, max(1, nbytes))]
+    if prev is not None:
+        pc = b * math.prod(max(p) for p in prev)
+        vals += [pc - 1, pc, pc + 1, 2 * pc]
+    return sorted({v for v in vals if v >= 0})
+
+
+def limits_call(CU, case):
+    """One call of the real code with the limit `value` written as `spelling` and supplied through `source`.
+    Returns (status, chunks)."""
+    import dask
+    import dask_array as da
+
+    spec, shape, prev = dec(case["spec"]), tuple(case["shape"]), dec(case.get("prev"))
+    V, sp, src, dtype = case["value"], case["spelling"], case["source"], case["dtype"]
+    cfg = dict(case.get("config") or {})
+    L = spelled(sp, V)
+
+    def with_bytes(spec, text, mode):
+        axes = expand(spec, shape)
+        done = False
+        new = []
+        for a in axes:
+            if a == "auto" and (mode == "all" or not done):
+                new.append(text)
+                done = True
+            else:
+                new.append(a)
+        if isinstance(spec, dict):
+            return {i: a for i, a in enumerate(new) if i in spec}
+        if isinstance(spec, str):
+            return text if mode == "all" else tuple(new)
+        return type(spec)(new)
+
+    if src == "arg":
+        return call_normalize(CU, spec, shape, L, dtype, prev, cfg)
+    if src == "spec":
+        return call_normalize(CU, with_bytes(spec, L, case.get("bytes_mode", "all")), shape, None, dtype, prev, cfg)
+    if src == "spec+arg":
+        return call_normalize(CU, with_bytes(spec, L, case.get("bytes_mode", "all")), shape, int(V), dtype, prev, cfg)
+    if src == "config":
+        cfg["array.chunk-size"] = L
+        return call_normalize(CU, spec, shape, None, dtype, prev, cfg)
+    old = signal.signal(signal.SIGALRM, _alarm)
+    signal.setitimer(signal.ITIMER_REAL, 20.0)
+    try:
+        if src in ("create", "create-config"):
+            fn = case.get("via") or "zeros"
+            s2 = with_bytes(spec, L, case.get("bytes_mode", "all")) if src == "create" else spec
+            if src == "create-config":
+                cfg["array.chunk-size"] = L
+            with dask.config.set(cfg):
+                f = getattr(da, fn)
+                x = f(shape, 7, chunks=s2, dtype=dtype) if fn == "full" else f(shape, chunks=s2, dtype=dtype)
+                return "ok", x.chunks
+        if src in ("rechunk", "rechunk-config"):
+            kw = {}
+            if src == "rechunk":
+                kw["block_size_limit"] = L
+            else:
+                cfg["array.chunk-size"] = L
+            with dask.config.set(cfg):
+                x = da.zeros(shape, chunks=prev, dtype=dtype)
+                y = x.rechunk(spec, **kw) if case.get("via") != "function" else da.rechunk(x, spec, **kw)
+                return "ok", y.chunks
+        raise AssertionError(src)
+    except Timeout:
+        return "hang", None
+    except Exception as e:
+        return "err", e
+    finally:
+        signal.setitimer(signal.ITIMER_REAL, 0)
+        signal.signal(signal.SIGALRM, old)
+
+
+def run_limits_case(ctx, CU, case):
+    """The spelled call must (1) be a valid layout within max(limit, what the fixed axes force) [validate], and (2) equal
+    the plain call normalize_chunks(spec, shape, limit=int(value), dtype=, previous_chunks=) — the same request."""
+    import warnings
+
+    with warnings.catch_warnings():
+        warnings.simplefilter("ignore")  # NumPy-scalar limits turn the ZeroDivisionError of a zero-length fixed axis into a warning
+        status, out = limits_call(CU, case)
+    res = validate(ctx, case, status, out)  # case["limit"] == value: the limit in force whatever its spelling / source
+    spec, shape, prev = dec(case["spec"]), tuple(case["shape"]), dec(case.get("prev"))
+    st0, out0 = call_normalize(CU, spec, shape, int(case["value"]), case["dtype"], prev, case.get("config"))
+    if st0 == "ok" and status == "ok" and tuple(out) != tuple(out0):
+        ctx.fail("limit:spelling-differs", dict(case, got=repr(out), want=repr(out0)),
+                 f"limit {case['value']} B written as {spelled(case['spelling'], case['value'])!r} through {case['source']} gives a layout "
+                 f"different from normalize_chunks(..., limit={int(case['value'])})")
+        res = "limit:spelling-differs"
+    elif (st0 == "ok") != (status == "ok") and "hang" not in (st0, status):
+        # one spelling refused, the other accepted: not a bad layout (a refusal), but recorded
+        ctx.notes["limit_spellings_refused_while_int_accepted"] = ctx.notes.get("limit_spellings_refused_while_int_accepted", 0) + 1
+        ex = ctx.notes.setdefault("limit_spelling_refusal_examples", [])
+        if len(ex) < 5:
+            ex.append({"source": case["source"], "spelling": case["spelling"], "value": case["value"], "dtype": case["dtype"],
+                       "spelled": status if status != "err" else type(out).__name__, "int": st0 if st0 != "err" else type(out0).__name__})
+        res = "spelling-refusal-differs"
+    return status, out, res
+
+
+def search_limits(ctx, CU, go_count):
+    """Systematic: every limit class (0, 1, itemsize±1, one row ±1, what the fixed axes force ±1, one previous chunk ±1, the array
+    ±1, far beyond) x every spelling x every source x spec shapes x itemsizes 1..16 x shapes with length-0/1 axes."""
+    rng = ctx.rng
+    t_start = ctx.elapsed()
+    budget = ctx.scale(7.0, 90.0)
+    groups = 0
+    calls = 0
+    seen_classes = set()
+    fixed_shapes = [(12,), (6, 10), (3, 4, 5), (1, 7), (5, 1), (1,), (2, 3, 1, 4)]
+    it = 0
+    while ctx.elapsed() - t_start < budget and it < ctx.scale(4000, 100000):
+        it += 1
+        if it <= len(fixed_shapes) * 3:
+            shape = fixed_shapes[(it - 1) % len(fixed_shapes)]
+        else:
+            shape = tuple(rng.choice([0, 1, 1, 2, 3, 5, 6, 8, 10, 13, 40]) for _ in range(rng.randint(1, 3)))
+        r = len(shape)
+        dtype = LIMIT_DTYPES[(it - 1) % len(LIMIT_DTYPES)] if it <= 40 else rng.choice(LIMIT_DTYPES)
+        kind = "all" if it % 3 == 1 else rng.choice(["all", "mixed", "mixed", "dict", "scalar"])
+        if kind in ("all", "scalar") or r == 1:
+            specs = ["auto"] * r
+        else:
+            specs = [rng.choice(["auto", "auto", -1, None, rng.randint(1, max(1, n)), max(1, n // 2), tuple(gen.rand_chunks(rng, n, maxparts=4))]) for n in shape]
+            if "auto" not in specs:
+                specs[rng.randrange(r)] = "auto"
+        if kind == "scalar":
+            spec = "auto"
+        elif kind == "dict":
+            spec = {i: c for i, c in enumerate(specs) if c is not None}
+        else:
+            spec = tuple(specs) if rng.random() < 0.8 else list(specs)
+        prev = tuple(tuple(gen.rand_chunks(rng, n, maxparts=5)) for n in shape) if rng.random() < 0.45 and all(n > 0 for n in shape) else None
+        fixed_elems = math.prod((n if (c is None or c == -1) else (max(c) if isinstance(c, tuple) else min(c, max(1, n)))) for c, n in zip(specs, shape) if c != "auto")
+        vals = limits_values(rng, shape, dtype, prev, fixed_elems)
+        # every run: 0 and 1 first, then a random subset of the other classes
+        chosen = [0, 1] + rng.sample(vals, min(len(vals), 3))
+        ambient = rng.choice([{}, {}, {"array.chunk-size": "1MiB"}, {"array.chunk-size": 7}, {"array.chunk-size": "64B"}])
+        for V in dict.fromkeys(chosen):
+            sps = spellings_of(V)
+            strs = [s for s in sps if s[0] == "str"]
+            nonstr = [s for s in sps if s[0] != "str"]
+            plan = [("arg", ["int"])]
+            plan += [("arg", s) for s in rng.sample(nonstr, min(3, len(nonstr)))]
+            plan += [("arg", s) for s in rng.sample(strs, min(2, len(strs)))]
+            plan += [("spec", s) for s in rng.sample(strs, min(2, len(strs)))]
+            plan += [("spec+arg", rng.choice(strs))] if strs else []
+            plan += [("config", s) for s in rng.sample(sps, min(2, len(sps)))]
+            if prev is not None and not isinstance(spec, dict) and None not in specs and V <= 2**40 + 1:
+                plan += [("rechunk", s) for s in rng.sample(sps, min(3, len(sps)))] + [("rechunk", ["int"]), ("rechunk-config", rng.choice(sps))]
+            if prev is None and V <= 2**40 + 1:
+                plan += [("create", rng.choice(strs))] if strs else []
+                plan += [("create-config", rng.choice(sps))]
+            groups += 1
+            for src, sp in plan:
+                case = {"kind": "limits", "source": src, "value": V, "spelling": sp, "spec": enc(spec), "shape": list(shape), "limit": V,
+                        "dtype": dtype, "prev": enc(prev), "config": dict(ambient)}
+                if src in ("spec", "spec+arg", "create"):
+                    case["bytes_mode"] = rng.choice(["all", "one"])
+                if src in ("create", "create-config"):
+                    case["via"] = rng.choice(["zeros", "ones", "empty", "full"])
+                if src in ("rechunk", "rechunk-config") and rng.random() < 0.3:
+                    case["via"] = "function"
+                status, out, res = run_limits_case(ctx, CU, case)
+                calls += 1
+                b = np.dtype(dtype).itemsize
+                vclass = ("0" if V == 0 else "1" if V == 1 else "<item" if V < b else "item" if V == b else
+                          "<fixed" if V < b * fixed_elems else ">=array" if V >= b * math.prod(shape) else "mid")
+                spclass = sp[0] if sp[0] != "str" else "str"
+                go_count(("limits", src, spclass, vclass, kind, prev is not None, res))
+                seen_classes.add((src, spclass, vclass))
+    ctx.notes["limits_stream"] = {"groups(spec,shape,dtype,prev,value)": groups, "calls": calls, "distinct(source,spelling kind,value class)": len(seen_classes),
+                                  "seconds": round(ctx.elapsed() - t_start, 1)}
+
+
 # ------------------------------------------------------------------------------ main
 
 def run(ctx, replay=None):
@@ -541,6 +791,12 @@ def run(ctx, replay=None):
 
     if replay is not None:
         case = replay.get("case", replay)
+        if case.get("kind") == "limits":
+            case = {k: v for k, v in case.items() if k not in ("got", "want", "block_bytes", "limit_bytes", "fixed_bytes", "tolerance")}
+            status, out, res = run_limits_case(ctx, CU, case)
+            ctx.count(("replay", res))
+            ctx.notes["replay_result"] = f"{status} {out!r} -> {res}"
+            return
         if "spec" in case:
             case = {k: case.get(k) for k in ("spec", "shape", "limit", "dtype", "prev", "config", "history", "via") if k in case or k not in ("history", "via")}
             status, out, res = run_case(ctx, CU, case)
@@ -666,7 +922,7 @@ def correspondence(ctx, CU, N, NR):
     stats = {"levels": 0, "relation_checked": 0, "relation_violations": 0, "skipped_outside_model": 0}
 
     def one_case(specs, shape, limit, dtype, presentation=None):
-        specs = [("%dB" % rng.choice([1, 2, 8, 100, 1024]) if c == "auto-bytes" else c) for c in specs]
+        specs = [("%dB" % rng.choice([0, 1, 2, 8, 100, 1024]) if c == "auto-bytes" else c) for c in specs]
         bytes_vals = {parse_bytes(c) for c in specs if isinstance(c, str) and c != "auto"}
         if len(bytes_vals) > 1 and rng.random() < 0.8:
             b = sorted(bytes_vals)[0]
@@ -703,9 +959,9 @@ def correspondence(ctx, CU, N, NR):
     axis_specs_small = lambda n: [None, -1, 0, 1, 2, n, n + 1, -2, "auto", "auto-bytes"] + [t for t in ((n,), (1,) * n or (0,), (0, n), (n + 1,), ()) ]
     for shape in itertools.product(range(0, 4), repeat=2):
         for specs in itertools.product(*(axis_specs_small(n) for n in shape)):
-            for limit in (None, 1, 4):
-                if limit is None and not any(isinstance(c, str) for c in specs):
-                    pass
+            for limit in (None, 0, 1, 4):
+                if limit == 0 and not any(isinstance(c, str) for c in specs):
+                    continue  # the limit is only read on auto / byte-string axes
                 one_case(list(specs), shape, limit, rng.choice(["int8", "int32"]))
     for n in range(0, 5):  # rank 1 incl. the missing-outer-tuple clean-up
         for specs in [[2, 3], [n, 0], [1] * max(2, n), ["auto", "auto"], [1, "auto"], [None, 2], [-1, n + 1], [n], ["auto"], [None], [], [(n,)], ["3B"]]:
@@ -717,10 +973,23 @@ def correspondence(ctx, CU, N, NR):
         specs = [rand_spec_axis(rng, n) for n in shape]
         if rng.random() < 0.05:
             specs = specs[:-1] if rng.random() < 0.5 else specs + [1]
-        limit = rng.choice([None, 1, 2, 7, 8, 16, 64, 100, 1000, 4096, 10**5, 10**6, 2**27, rng.randint(1, 10**7)])
+        limit = rng.choice([None, 0, 1, 2, 7, 8, 16, 64, 100, 1000, 4096, 10**5, 10**6, 2**27, rng.randint(1, 10**7)])
         if limit is None and any(c == "auto" for c in specs) and not any(c == "auto-bytes" for c in specs) and math.prod(shape) > 10**7:
             limit = 10**6
         one_case(specs, shape, limit, rng.choice(DTYPES), presentation=lambda s: present(rng, s, shape))
+    # boundary limits (0, 1, itemsize±1, one row ±1, the array ±1, far beyond) as limit= and as a byte string, itemsizes 1..16
+    for shape in [(12,), (6, 10), (3, 4, 5), (1, 7), (5, 1), (2, 3, 1, 4)]:
+        for dtype in ("int8", "S3", "int32", "S7", "float64", "complex128"):
+            b = np.dtype(dtype).itemsize
+            nb = b * math.prod(shape)
+            row = b * math.prod(shape[1:])
+            for limit in sorted({0, 1, b - 1, b, b + 1, row - 1, row, row + 1, nb - 1, nb, nb + 1, 3 * nb, 2**40 + 1}):
+                variants = [["auto"] * len(shape)]
+                if len(shape) > 1:
+                    variants += [[2] + ["auto"] * (len(shape) - 1), ["auto"] * (len(shape) - 1) + [-1]]
+                for specs in variants:
+                    one_case(list(specs), shape, limit, dtype)
+                    one_case([(f"{limit}B" if c == "auto" else c) for c in specs], shape, None, dtype)
     ctx.correspond("normalize_chunks", pairs)
     ctx.correspond("auto_chunks", apairs)
     ctx.notes["oracle"] = stats
@@ -884,6 +1153,9 @@ def search(ctx, CU):
     compare_with_fresh(ctx, fresh_items)
 
     tm["histories"] = round(ctx.elapsed(), 1)
+    # ---- extreme / falsy / boundary limits x spellings x sources (limit=, byte string, config, rechunk block_size_limit, creation)
+    search_limits(ctx, CU, ctx.count)
+    tm["limits"] = round(ctx.elapsed(), 1)
     ctx.notes["search_stream_elapsed"] = tm
     # ---- previous_chunks with zero-size chunks (known class auto:limit-exceeded:prev-zero-chunk lives here)
     for it in range(ctx.scale(2000, 40000)):
